@@ -13,7 +13,7 @@
 From Coq Require Import String List ZArith Bool.
 From Shoot Require Import Base.Str Model.Transfer Model.MapVal Model.Mapper Model.MapperEval Model.MapperSpec
      Proofs.MapperProofs Proofs.MapperPlanProofs Proofs.MapperFlattenProofs Proofs.MapperAnalyseProofs
-     Proofs.MapperCompleteProofs
+     Proofs.MapperCompleteProofs Proofs.MapperAttribProofs
      Corr.MapperCorr Proofs.MapperExamples Proofs.MapperExampleProofs.
 Import ListNotations.
 Local Open Scope string_scope.
@@ -103,6 +103,76 @@ Example C05_complete_hypotheses_satisfiable :
              /\ can_name_match (src_at (pr_s0 pr) 3) (dst_at (pr_s0 pr) 3) (p_tags (pr_src pr)) false = true
              /\ match_applicable (ps_env ex1) (f_ty (src_at (pr_s0 pr) 3)) (f_ty (dst_at (pr_s0 pr) 3)).
 Proof. exact ex1_complete_hyps. Qed.
+
+(* ---- completeness AND "which strategy wins", both directions: under
+   one-to-one name matching (inj2: among the fields of the two sides, two
+   name-matching pairs share a source field iff they share the destination
+   field) take a name-matching pair (source field i, destination field j), neither
+   an accessor pseudo-field, the written one not covered before the passes
+   (by a manual method or the constructor call).  Then
+     * if MapperSpec.choose -- the declarative priority  mapper method (first
+       in declaration order) > sub-struct ToX/FromX > element-wise > assignment >
+       conversion -- yields a strategy h for the two types, the plan contains
+       the statement "j := h(i)", and every statement writing j is that one;
+     * if it yields none, no statement writes j.
+   This supersedes C05_complete_claimed_partial (kept: it needs only one-sided
+   injectivity) and settles the FromX twin.  What is still NOT proved is the link
+   between the flattened field arrays / canNameMatch and the declarative
+   [visible] leaves / [names_match] of MapperSpec.v, and the value-level equality
+   "executing the plan = MapperSpec.spec_to/spec_from" (see
+   C05_plan_matches_spec_partial below); both are evaluated on every sampled
+   execution by the correspondence. *)
+Theorem C05_attribution_to : forall sigma jb a pr,
+  analyse sigma jb = Some a -> prepare jb = Some pr -> acc_guard jb ->
+  (forall fn, In fn (j_funcs jb) -> mf_name fn <> "") ->
+  inj2 (p_tags (pr_src pr)) (j_ic jb) (pr_s0 pr) ->
+  forall i j,
+  i < length (s_src (pr_s0 pr)) -> j < length (s_dst (pr_s0 pr)) ->
+  can_name_match (src_at (pr_s0 pr) i) (dst_at (pr_s0 pr) j) (p_tags (pr_src pr)) (j_ic jb) = true ->
+  f_isget (dst_at (pr_s0 pr) j) = false -> f_isget (src_at (pr_s0 pr) i) = false ->
+  s_has (s_wdst (pr_s0 pr)) (f_name (dst_at (pr_s0 pr) j)) = false ->
+  match choose (j_env jb) (j_funcs jb) true (f_ty (src_at (pr_s0 pr) i)) (f_ty (dst_at (pr_s0 pr) j)) with
+  | Some h =>
+      (exists st, In st (pl_stmts (a_to a)) /\ st_dst st = ref_of (dst_at (a_state a) j)
+                  /\ st_src st = ref_of (src_at (a_state a) i) /\ st_how st = h)
+      /\ (forall st, In st (pl_stmts (a_to a)) -> r_name (st_dst st) = f_name (dst_at (pr_s0 pr) j) ->
+                     st_src st = ref_of (src_at (a_state a) i) /\ st_how st = h)
+  | None => forall st, In st (pl_stmts (a_to a)) -> r_name (st_dst st) <> f_name (dst_at (pr_s0 pr) j)
+  end.
+Proof. intros; eapply analyse_attrib_to; eauto. Qed.
+Print Assumptions C05_attribution_to.
+
+Theorem C05_attribution_from : forall sigma jb a pr,
+  analyse sigma jb = Some a -> prepare jb = Some pr -> acc_guard jb ->
+  (forall fn, In fn (j_funcs jb) -> mf_name fn <> "") ->
+  inj2 (p_tags (pr_src pr)) (j_ic jb) (pr_s0 pr) ->
+  forall i j,
+  i < length (s_src (pr_s0 pr)) -> j < length (s_dst (pr_s0 pr)) ->
+  can_name_match (src_at (pr_s0 pr) i) (dst_at (pr_s0 pr) j) (p_tags (pr_src pr)) (j_ic jb) = true ->
+  f_isget (dst_at (pr_s0 pr) j) = false -> f_isget (src_at (pr_s0 pr) i) = false ->
+  s_has (s_wsrc (pr_s0 pr)) (f_name (src_at (pr_s0 pr) i)) = false ->
+  match choose (j_env jb) (j_funcs jb) false (f_ty (dst_at (pr_s0 pr) j)) (f_ty (src_at (pr_s0 pr) i)) with
+  | Some h =>
+      (exists st, In st (pl_stmts (a_from a)) /\ st_dst st = ref_of (src_at (a_state a) i)
+                  /\ st_src st = ref_of (dst_at (a_state a) j) /\ st_how st = h)
+      /\ (forall st, In st (pl_stmts (a_from a)) -> r_name (st_dst st) = f_name (src_at (pr_s0 pr) i) ->
+                     st_src st = ref_of (dst_at (a_state a) j) /\ st_how st = h)
+  | None => forall st, In st (pl_stmts (a_from a)) -> r_name (st_dst st) <> f_name (src_at (pr_s0 pr) i)
+  end.
+Proof. intros; eapply analyse_attrib_from; eauto. Qed.
+Print Assumptions C05_attribution_from.
+
+(* the hypotheses are satisfiable: ex1, whose name matching is one-to-one *)
+Example C05_attribution_hypotheses_satisfiable :
+  exists pr, prepare (job_of ex1 "T") = Some pr
+             /\ inj2 (p_tags (pr_src pr)) false (pr_s0 pr)
+             /\ (forall fn, In fn (j_funcs (job_of ex1 "T")) -> mf_name fn <> "").
+Proof.
+  destruct (prepare (job_of ex1 "T")) as [pr|] eqn:E; [|vm_compute in E; discriminate].
+  exists pr. split; auto. vm_compute in E. inversion E; subst; clear E.
+  split; [apply inj2_b_sound; vm_compute; reflexivity|].
+  intros fn H. vm_compute in H. repeat (destruct H as [<-|H]; [discriminate|]). contradiction.
+Qed.
 
 (* ---- "-way limits generation to the requested direction" *)
 Theorem C05_way : forall w,
